@@ -838,9 +838,11 @@ func (r *vRunner) doMatch(o vOp) {
 	}
 	// the text of a matcher failure (never compared with the model: C17's oracle looks for the failing paths in it)
 	etext := "-"
-	if len(errs) > 0 && outcome == "failed:matchers" {
+	if len(errs) > 0 && (outcome == "failed:matchers" || pre == "matcherr") {
 		if s, ok := errs[0].(string); ok {
 			etext = vhex([]byte(s))
+		} else {
+			etext = vhex([]byte(fmt.Sprint(errs[0]))) // an error value (e.g. "snapshot not found") where the failing matchers should be named
 		}
 	}
 	jpre := "*"
